@@ -691,6 +691,14 @@ theorem publication_schedules_rrdp_update :
     scheduled .RrdpUpdateIfNeeded (KM.Generated.pubdMethodTasks .remove_publisher) = true := by
   decide
 
+/-- …and the task is put on the queue only after the change is in the repository content: a
+task scheduled first could be claimed, find nothing staged and finish before the change
+exists (a lost wake-up: the change would wait for the next unrelated publication). -/
+theorem publication_schedules_after_change :
+    KM.Generated.pubdScheduleAfterChange .publish = true ∧
+    KM.Generated.pubdScheduleAfterChange .remove_publisher = true := by
+  decide
+
 /-- The recurring maintenance tasks. -/
 def recurring : List KM.Generated.TaskKind :=
   [.RepublishIfNeeded, .RenewObjectsIfNeeded, .UpdateSnapshots]
